@@ -30,3 +30,95 @@ Definition subscription_types (pe : list evclass) : list evclass := sub_types_lo
    the event is an instance of *)
 Definition deliveries (pe : list evclass) (c : evclass) : Z :=
   Z.of_nat (length (filter (fun t => descends c t) (subscription_types pe))).
+
+(* ------------------------------------------------------------ events.callbacks over time *)
+
+(* events.callbacks restricted to the pools' _acceptEvent callbacks: (type, pool)
+   in subscription order; a pool is identified by its group name (a number here) *)
+Definition callbacks := list (evclass * Z).
+
+Definition cb_eqb (a b : evclass * Z) : bool := evclass_eqb (fst a) (fst b) && (snd a =? snd b).
+
+(* def subscribe(type, callback): callbacks.append((type, callback)) *)
+Definition subscribe (cbs : callbacks) (t : evclass) (p : Z) : callbacks := cbs ++ [(t, p)].
+
+(* def unsubscribe(type, callback): callbacks.remove((type, callback))
+   list.remove deletes the FIRST equal entry; None = ValueError when there is none *)
+Fixpoint unsubscribe (cbs : callbacks) (t : evclass) (p : Z) : option callbacks :=
+  match cbs with
+  | [] => None
+  | e :: r =>
+    if cb_eqb e (t, p) then Some r
+    else match unsubscribe r t p with
+         | Some r' => Some (e :: r')
+         | None => None
+         end
+  end.
+
+(* EventListenerPool._subscribe / _unsubscribe (the EventRejectedEvent entry has
+   another callback, handle_rejected, and never produces an envelope) *)
+Definition pool_subscribe (cbs : callbacks) (pe : list evclass) (p : Z) : callbacks :=
+  fold_left (fun c t => subscribe c t p) (subscription_types pe) cbs.
+
+Fixpoint unsubscribe_all (cbs : callbacks) (l : list evclass) (p : Z) : option callbacks :=
+  match l with
+  | [] => Some cbs
+  | t :: r => match unsubscribe cbs t p with
+              | Some cbs' => unsubscribe_all cbs' r p
+              | None => None
+              end
+  end.
+
+Definition pool_unsubscribe (cbs : callbacks) (pe : list evclass) (p : Z) : option callbacks :=
+  unsubscribe_all cbs (subscription_types pe) p.
+
+(* events.notify(event of class c): how many times pool p's callback is called *)
+Definition notify_deliveries (cbs : callbacks) (c : evclass) (p : Z) : Z :=
+  Z.of_nat (length (filter (fun e => (snd e =? p) && descends c (fst e)) cbs)).
+
+(* the daemon's pools over time: Supervisor.add_process_group(config) builds the
+   pool (which subscribes) unless the name exists; remove_process_group(name) on a
+   stopped pool calls before_remove() (which unsubscribes) and forgets it *)
+Inductive wop := WAdd (p : Z) (pe : list evclass) | WRemove (p : Z).
+
+Definition registry := list (Z * list evclass).
+
+Fixpoint reg_get (reg : registry) (p : Z) : option (list evclass) :=
+  match reg with
+  | [] => None
+  | (q, pe) :: r => if q =? p then Some pe else reg_get r p
+  end.
+
+Definition reg_del (reg : registry) (p : Z) : registry := filter (fun e => negb (fst e =? p)) reg.
+
+Inductive world := World (cbs : callbacks) (reg : registry) | WorldError.
+
+Definition wstep (w : world) (o : wop) : world :=
+  match w with
+  | WorldError => WorldError
+  | World cbs reg =>
+    match o with
+    | WAdd p pe =>
+      match reg_get reg p with
+      | Some _ => w
+      | None => World (pool_subscribe cbs pe p) ((p, pe) :: reg)
+      end
+    | WRemove p =>
+      match reg_get reg p with
+      | None => w                                   (* KeyError, nothing happens *)
+      | Some pe =>
+        match pool_unsubscribe cbs pe p with
+        | Some cbs' => World cbs' (reg_del reg p)
+        | None => WorldError                        (* ValueError out of list.remove *)
+        end
+      end
+    end
+  end.
+
+Definition wrun (l : list wop) : world := fold_left wstep l (World [] []).
+
+Definition world_deliveries (w : world) (c : evclass) (p : Z) : Z :=
+  match w with
+  | World cbs _ => notify_deliveries cbs c p
+  | WorldError => -1
+  end.
